@@ -453,6 +453,45 @@ def run(ctx):
             lost = [r_ for r_ in sets[1] if r_ not in sets[0]][:3]
             viol.append({"kind": "example", "model": "golomb", "args": [marks, int(sbf)], "given_marks": pre, "length_cap": capl,
                          "detail": f"the model's own consistency algorithm enumerates {len(sets[0])} rulers, plain bound consistency {len(sets[1])}; lost: {lost}; invalid: {bad_r[:2]}"})
+    # LatinSquareProblem WITH GIVENS (the reusable model behind Sudoku): zero- and one-based colours, every kind of wildcard; the
+    # solutions must be exactly the latin squares of that order that agree with the givens (brute force over all squares)
+    def all_latin(n_):
+        rows = list(itertools.permutations(range(n_)))
+        out = []
+        def rec(sq):
+            if len(sq) == n_:
+                out.append([x for r_ in sq for x in r_])
+                return
+            for r_ in rows:
+                if all(r_[j] != p_[j] for p_ in sq for j in range(n_)):
+                    rec(sq + [r_])
+        rec([])
+        return out
+    for _ in range(4 if not thorough else 40):
+        n_ = rng.choice([3, 3, 4])
+        base = rng.choice([0, 0, 1])
+        squares = all_latin(n_)
+        hidden = rng.choice(squares)
+        reveal = [rng.random() < (0.45 if n_ == 4 else 0.3) for _k in range(n_ * n_)]
+        if base == 0 and not any(reveal[k_] and hidden[k_] == 0 for k_ in range(n_ * n_)):
+            k0 = hidden.index(0)
+            reveal[k0] = True  # a given of colour 0 (a falsy value) must be honoured like any other
+        wild = rng.choice([-1, n_ + base, None] if base == 0 else [0, -1, n_ + 1, None])
+        giv = [[(hidden[i * n_ + j] + base) if reveal[i * n_ + j] else wild for j in range(n_)] for i in range(n_)]
+        try:
+            lp = LatinSquareProblem(list(range(base, n_ + base)), giv)
+            r = nv.impl_solve(from_problem(lp), nv.Cfg(cons=rng.choice([0, 1]), domh=rng.choice([0, 1, 3])))
+        except Exception as e:  # noqa: BLE001
+            viol.append({"kind": "example", "model": "latin_square", "args": [n_, base], "givens": giv, "detail": f"{type(e).__name__}: {e}"})
+            continue
+        report.cov["evaluations"] += 1
+        report.count("latin_square_with_givens", f"{n_}:{base}")
+        want = sorted(tuple(x + base for x in sq) for sq in squares if all(not reveal[k_] or sq[k_] == hidden[k_] for k_ in range(n_ * n_)))
+        got = sorted(tuple(s_[: n_ * n_]) for s_ in r[1]) if r[0] == "ok" else None
+        if got != want:
+            viol.append({"kind": "example", "model": "latin_square", "args": [n_, base], "givens": giv,
+                         "detail": f"LatinSquareProblem with givens: {None if got is None else len(got)} solutions ({r[0]}), {len(want)} latin squares agree with the givens"
+                                   + ("" if got is None else f"; not expected: {[g_ for g_ in got if g_ not in want][:1]}; missing: {[w_ for w_ in want if w_ not in got][:1]}")})
     # whole runs of the Golomb example WITH ITS OWN consistency algorithm against the model's search with ConsAlg.golomb (the
     # algorithm is registered above): solution sequence / optimum and the 13 statistics must be equal
     gruns = []
